@@ -321,6 +321,9 @@ void apply_patch(Json& target, const Json& patch, std::error_code& ec)
     for (const auto& operation : patch.array_range())
     {
         unwinder.state =jsoncons::jsonpatch::detail::state_type::begin;
+        // Undo entries are built before the document is changed and stored without further allocation,
+        // so that an exception (for instance std::bad_alloc) thrown part way can still be rolled back
+        unwinder.stack.reserve(unwinder.stack.size() + 2);
 
         auto it_op = operation.find(detail::jsonpatch_names<char_type>::op_name());
         if (it_op == operation.object_range().end())
@@ -383,6 +386,7 @@ void apply_patch(Json& target, const Json& patch, std::error_code& ec)
             auto npath = jsonpatch::detail::definite_path(target,location);
 
             std::error_code insert_ec;
+            typename jsoncons::jsonpatch::detail::operation_unwinder<Json>::entry undo_insert(detail::op_type::remove,npath,Json::null());
             jsonpointer::add_if_absent(target,npath,val,insert_ec); // try insert without replace
             if (insert_ec) // try a replace
             {
@@ -395,18 +399,19 @@ void apply_patch(Json& target, const Json& patch, std::error_code& ec)
                     return;
                 }
                 std::error_code replace_ec;
+                unwinder.stack.emplace_back(detail::op_type::replace,npath,orig_val);
                 jsonpointer::replace(target,npath,val,replace_ec);
                 if (replace_ec)
                 {
+                    unwinder.stack.pop_back();
                     ec = jsonpatch_errc::add_failed;
                     unwinder.state =jsoncons::jsonpatch::detail::state_type::abort;
                     return;
                 }
-                unwinder.stack.emplace_back(detail::op_type::replace,npath,orig_val);
             }
             else // insert without replace succeeded
             {
-                unwinder.stack.emplace_back(detail::op_type::remove,npath,Json::null());
+                unwinder.stack.push_back(std::move(undo_insert));
             }
         }
         else if (op ==jsoncons::jsonpatch::detail::jsonpatch_names<char_type>::remove_name())
@@ -418,6 +423,7 @@ void apply_patch(Json& target, const Json& patch, std::error_code& ec)
                 unwinder.state =jsoncons::jsonpatch::detail::state_type::abort;
                 return;
             }
+            typename jsoncons::jsonpatch::detail::operation_unwinder<Json>::entry undo_remove(detail::op_type::add, location, val);
             jsonpointer::remove(target,location,local_ec);
             if (local_ec)
             {
@@ -425,7 +431,7 @@ void apply_patch(Json& target, const Json& patch, std::error_code& ec)
                 unwinder.state =jsoncons::jsonpatch::detail::state_type::abort;
                 return;
             }
-            unwinder.stack.emplace_back(detail::op_type::add, location, val);
+            unwinder.stack.push_back(std::move(undo_remove));
         }
         else if (op ==jsoncons::jsonpatch::detail::jsonpatch_names<char_type>::replace_name())
         {
@@ -443,14 +449,15 @@ void apply_patch(Json& target, const Json& patch, std::error_code& ec)
                 unwinder.state =jsoncons::jsonpatch::detail::state_type::abort;
                 return;
             }
+            unwinder.stack.emplace_back(detail::op_type::replace,location,val);
             jsonpointer::replace(target, location, it_value->value(), local_ec);
             if (local_ec)
             {
+                unwinder.stack.pop_back();
                 ec = jsonpatch_errc::replace_failed;
                 unwinder.state =jsoncons::jsonpatch::detail::state_type::abort;
                 return;
             }
-            unwinder.stack.emplace_back(detail::op_type::replace,location,val);
         }
         else if (op ==jsoncons::jsonpatch::detail::jsonpatch_names<char_type>::move_name())
         {
@@ -477,6 +484,7 @@ void apply_patch(Json& target, const Json& patch, std::error_code& ec)
                 unwinder.state =jsoncons::jsonpatch::detail::state_type::abort;
                 return;
             }
+            typename jsoncons::jsonpatch::detail::operation_unwinder<Json>::entry undo_remove(detail::op_type::add, from_pointer, val);
             jsonpointer::remove(target, from_pointer, local_ec);
             if (local_ec)
             {
@@ -484,10 +492,11 @@ void apply_patch(Json& target, const Json& patch, std::error_code& ec)
                 unwinder.state =jsoncons::jsonpatch::detail::state_type::abort;
                 return;
             }
-            unwinder.stack.emplace_back(detail::op_type::add, from_pointer, val);
+            unwinder.stack.push_back(std::move(undo_remove));
             // add
             std::error_code insert_ec;
             auto npath = jsonpatch::detail::definite_path(target,location);
+            typename jsoncons::jsonpatch::detail::operation_unwinder<Json>::entry undo_insert(detail::op_type::remove,npath,Json::null());
             jsonpointer::add_if_absent(target,npath,val,insert_ec); // try insert without replace
             if (insert_ec) // try a replace
             {
@@ -500,18 +509,19 @@ void apply_patch(Json& target, const Json& patch, std::error_code& ec)
                     return;
                 }
                 std::error_code replace_ec;
+                unwinder.stack.emplace_back(jsoncons::jsonpatch::detail::op_type::replace,npath,orig_val);
                 jsonpointer::replace(target, npath, val, replace_ec);
                 if (replace_ec)
                 {
+                    unwinder.stack.pop_back();
                     ec = jsonpatch_errc::copy_failed;
                     unwinder.state =jsoncons::jsonpatch::detail::state_type::abort;
                     return;
                 }
-                unwinder.stack.emplace_back(jsoncons::jsonpatch::detail::op_type::replace,npath,orig_val);
             }
             else
             {
-                unwinder.stack.emplace_back(detail::op_type::remove,npath,Json::null());
+                unwinder.stack.push_back(std::move(undo_insert));
             }
         }
         else if (op ==jsoncons::jsonpatch::detail::jsonpatch_names<char_type>::copy_name())
@@ -534,11 +544,12 @@ void apply_patch(Json& target, const Json& patch, std::error_code& ec)
             // add
             auto npath = jsonpatch::detail::definite_path(target,location);
             std::error_code insert_ec;
+            typename jsoncons::jsonpatch::detail::operation_unwinder<Json>::entry undo_insert(detail::op_type::remove,npath,Json::null());
             jsonpointer::add_if_absent(target,npath,val,insert_ec); // try insert without replace
-            if (insert_ec) // Failed, try a replace
+            if (insert_ec) // try a replace
             {
                 std::error_code select_ec;
-                Json orig_val = jsonpointer::get(target,npath, select_ec);
+                Json orig_val = jsonpointer::get(target,npath,select_ec);
                 if (select_ec) // shouldn't happen
                 {
                     ec = jsonpatch_errc::copy_failed;
@@ -546,18 +557,19 @@ void apply_patch(Json& target, const Json& patch, std::error_code& ec)
                     return;
                 }
                 std::error_code replace_ec;
-                jsonpointer::replace(target, npath, val,replace_ec);
+                unwinder.stack.emplace_back(jsoncons::jsonpatch::detail::op_type::replace,npath,orig_val);
+                jsonpointer::replace(target, npath, val, replace_ec);
                 if (replace_ec)
                 {
+                    unwinder.stack.pop_back();
                     ec = jsonpatch_errc::copy_failed;
                     unwinder.state =jsoncons::jsonpatch::detail::state_type::abort;
                     return;
                 }
-                unwinder.stack.emplace_back(jsoncons::jsonpatch::detail::op_type::replace,npath,orig_val);
             }
             else
             {
-                unwinder.stack.emplace_back(detail::op_type::remove,npath,Json::null());
+                unwinder.stack.push_back(std::move(undo_insert));
             }
         }
         else // RFC 6902: the "op" member must be one of add, remove, replace, move, copy, test
